@@ -2775,6 +2775,8 @@ static Type *struct_union_decl(Token **rest, Token *tok) {
     // Otherwise, register the struct type.
     Type *ty2 = hashmap_get2(&scope->tags, tag->loc, tag->len);
     if (ty2) {
+      if (ty2->size >= 0 && ty2->members)
+        error_tok(tag, "redefinition of struct or union tag");
       *ty2 = *ty;
       return ty2;
     }
